@@ -388,6 +388,8 @@ class SuitTupleNamed(SuitObject):
                         # IndexError end of the list
                         break
             else:
+                if index >= len(value_list):
+                    raise ValueError(f"Incomplete list. Missing: {key}")
                 value.append(method.from_cbor(cls.ensure_cbor(value_list[index])))
                 index += 1
         return cls(value)
@@ -456,6 +458,8 @@ class SuitKeyValue(SuitObject):
             raise ValueError(f"Expected key-value storage, received: {kv_dict}")
         for k, v in kv_dict.items():
             if not (child := cls._get_method_and_name(k, "id")):
+                if cls._metadata.embedded is None:
+                    raise ValueError(f"Unknown parameter: {k}")
                 for item in cls._metadata.embedded:
                     try:
                         try:
@@ -796,6 +800,8 @@ class SuitBitfield(SuitObject):
         value = []
         bitsum = 0
         bitval = cls.deserialize_cbor(cbstr)
+        if not isinstance(bitval, int):
+            raise ValueError(f"Unable to parse bitfield from: {bitval}")
         for bit in range(cls._bit_length):
             bitmask = 1 << bit
             if bitval & bitmask:
